@@ -7,6 +7,15 @@ A *symbolic object* is what the generator knows about a request object on the wi
    "sig": None | {"owner": <key owner>, "alg": <alg signed under>, "claims": {...signed payload...}}}
 The signature bytes are a genuine signature by owner's key (key type of sig.alg) over
 (header(sig.alg, kid), sig.claims).  Untampered object <=> sig.alg == alg and sig.claims == claims.
+
+  {"jwe": {"alg": <key management alg>, "enc": <content encryption>, "cty": None | "JWT" | ...,
+           "to": "OP" | "other",                      whose encryption key the JWE is addressed to
+           "damage": None | "tag" | "cut" | "seg4"},  what was done to the compact JWE afterwards
+   "inner": <symbolic object as above>                a JWS (or not a JWS: {"bad": ...}) inside the wrapper
+            | {"json": {...claims...}}                claims as plain JSON inside the wrapper: nobody signed them
+            | {"text": "<text>"}}                     any other plaintext
+an encrypted wrapper (compact JWE) around the object.  The provider of every World holds one RSA and one EC
+encryption key (ENC["OP"]); ENC["other"] are keys it does not have.
 """
 import base64
 import json
@@ -25,6 +34,19 @@ ALG_KTY = {"RS256": "RSA", "RS384": "RSA", "PS256": "RSA", "ES256": "EC", "HS256
 REDIRECT = {"client_1": "https://client_1.example.com/cb", "client_2": "https://client_2.example.com/cb"}
 METHOD_SETS = {"all": None, "rp_pub": ["request_param", "public"], "pub": ["public"]}
 _KEYS = {}
+ENC = {}
+JWE_KTY = {"RSA-OAEP": "RSA", "RSA-OAEP-256": "RSA", "RSA1_5": "RSA", "ECDH-ES": "EC", "ECDH-ES+A128KW": "EC"}
+
+
+def enc_keys():
+    """encryption key pairs: the provider's (added to the key jar of every World) and a stranger's (generated once)"""
+    if not ENC:
+        from cryptojwt.jwk.ec import new_ec_key
+        from cryptojwt.jwk.rsa import new_rsa_key
+        for who in ("OP", "other"):
+            ENC[who] = {"RSA": new_rsa_key(use="enc", kid="%s-enc-rsa" % who),
+                        "EC": new_ec_key("P-256", use="enc", kid="%s-enc-ec" % who)}
+    return ENC
 
 
 def keynum(owner, kty):
@@ -66,7 +88,13 @@ class World:
         self.keys = client_keys()
         for cid in ("client_1", "client_2"):
             self.server.keyjar.import_jwks(self.keys[cid]["jwks"], cid)
+        from cryptojwt.key_bundle import KeyBundle
+        kb = KeyBundle()
+        for k in enc_keys()["OP"].values():
+            kb.append(k)
+        self.server.keyjar.add_kb("", kb)          # the provider can decrypt: RSA-OAEP and ECDH-ES wrappers
         self.base_cdb = {cid: dict(self.ctx.cdb[cid]) for cid in ("client_1", "client_2")}
+        self.base_enc = {k: self.ctx.provider_info.get(k) for k in ENC_SUPPORTED}
         self.base_algs = list(self.ctx.provider_info["request_object_signing_alg_values_supported"])
         self.ep = self.server.get_endpoint("authorization")
         self.par = self.server.get_endpoint("pushed_authorization") if has_par else None
@@ -93,13 +121,27 @@ class World:
                 del self.ctx.cdb[k]
         self.ctx.provider_info["request_object_signing_alg_values_supported"] = list(self.base_algs)
         self.ctx.provider_info.pop("request_uri_parameter_supported", None)
+        for k, v in self.base_enc.items():
+            if v is None:
+                self.ctx.provider_info.pop(k, None)
+            else:
+                self.ctx.provider_info[k] = list(v)
         self.ctx.par_db.clear()
         self.ctx.jti_db.clear() if hasattr(self.ctx.jti_db, "clear") else None
         self.docs.clear()
 
-    def configure(self, reg=None, request_uris=None, prov_algs=None, ru_supported=None):
-        """reg: {cid: None | str | list}; request_uris: {cid: None | [uri]}"""
+    def configure(self, reg=None, request_uris=None, prov_algs=None, ru_supported=None, enc_reg=None, prov_enc=None):
+        """reg: {cid: None | str | list}; request_uris: {cid: None | [uri]};
+        enc_reg: {cid: [request_object_encryption_alg | None, request_object_encryption_enc | None]};
+        prov_enc: [alg values supported | None, enc values supported | None]"""
         self.reset()
+        for cid, v in (enc_reg or {}).items():
+            for key, val in zip(("request_object_encryption_alg", "request_object_encryption_enc"), v):
+                if val is not None:
+                    self.ctx.cdb[cid][key] = val
+        for key, val in zip(ENC_SUPPORTED, prov_enc or ()):
+            if val is not None:
+                self.ctx.provider_info[key] = list(val)
         for cid, v in (reg or {}).items():
             if v is not None:
                 self.ctx.cdb[cid]["request_object_signing_alg"] = v
@@ -137,7 +179,9 @@ class World:
             clients.append({"cid": cid, "reg": ci.get("request_object_signing_alg"),
                             "redirect_uris": [u for u, q in ci.get("redirect_uris", [])],
                             "request_uris": None if ru is None else [u for u, q in ru],
-                            "response_types": [rt.split(" ") for rt in ci.get("response_types_supported", [])]})
+                            "response_types": [rt.split(" ") for rt in ci.get("response_types_supported", [])],
+                            "enc_alg": ci.get("request_object_encryption_alg"),
+                            "enc_enc": ci.get("request_object_encryption_enc")})
         meths = self.ep.client_authn_method or list(self.ctx.client_authn_methods.keys())
         return {"oidc": self.oidc, "has_par": self.server.get_endpoint("pushed_authorization") is not None,
                 "methods": [m for m in meths if m in ("request_param", "public", "none")],
@@ -146,7 +190,10 @@ class World:
                 "par_hooks": [m.__qualname__ for m in self.par.post_parse_request] if self.par else [],
                 "prov_algs": list(self.ctx.provider_info.get("request_object_signing_alg_values_supported") or []),
                 "ru_supported": self.ctx.provider_info.get("request_uri_parameter_supported", True) is not False,
-                "ttl": self.par.ttl if self.par else 0, "jar": jar, "clients": clients, "issuer": srv.ISSUER}
+                "ttl": self.par.ttl if self.par else 0, "jar": jar, "clients": clients, "issuer": srv.ISSUER,
+                "prov_enc_algs": self.ctx.provider_info.get(ENC_SUPPORTED[0]),
+                "prov_enc_encs": self.ctx.provider_info.get(ENC_SUPPORTED[1]),
+                "dec_keys": sorted(k.kid for k in kj.get("enc", issuer_id="") if k.kid)}
 
     # ---- symbolic object -> compact serialisation
     def key_of(self, owner, kty):
@@ -157,6 +204,8 @@ class World:
             return None
         if "bad" in obj:
             return obj["bad"]
+        if "jwe" in obj:
+            return self.wire_jwe(obj)
         sig = obj.get("sig")
         hdr = {"alg": obj["alg"]}
         sigb = ""
@@ -171,6 +220,31 @@ class World:
             raw = SIGNER_ALGS[sig["alg"]].sign(sinput.encode(), key.private_key() if kty != "oct" else key.key)
             sigb = b64e(raw).decode()
         return b64j(hdr) + "." + b64j(obj["claims"]) + "." + sigb
+
+    def wire_jwe(self, obj):
+        """a real compact JWE around the wire form of the inner object"""
+        from cryptojwt.jwe.jwe import JWE
+        h, inner = obj["jwe"], obj["inner"]
+        if "json" in inner:
+            text = json.dumps(inner["json"])
+        elif "text" in inner:
+            text = inner["text"]
+        else:
+            text = self.wire(inner)
+        key = enc_keys()[h["to"]][JWE_KTY[h["alg"]]]
+        kw = {"cty": h["cty"]} if h.get("cty") else {}
+        import warnings
+        with warnings.catch_warnings():
+            warnings.simplefilter("ignore")          # cryptojwt: "alg=RSA1_5 deprecated"
+            txt = JWE(text, alg=h["alg"], enc=h["enc"], **kw).encrypt(keys=[key])
+        dmg = h.get("damage")
+        if dmg == "tag":            # authentication tag altered
+            txt = txt[:-4] + ("AAAA" if not txt.endswith("AAAA") else "BBBB")
+        elif dmg == "cut":          # truncated inside the tag
+            txt = txt[:-20]
+        elif dmg == "seg4":         # the last segment is missing altogether
+            txt = ".".join(txt.split(".")[:4])
+        return txt
 
     # ---- driving the real endpoints
     def authz(self, outer):
@@ -210,7 +284,8 @@ class World:
 # ---- canonical outcomes
 VALUE_ERRS = [("The pushed authorization request has expired", 12), ("Got a request_uri I can not resolve", 13),
               ("A request_uri outside the registered", 14), ("Not allowed '%s' algorithm used", 15)]
-EXC_TAG = {"ClientAuthenticationError": 1, "UnknownClient": 2, "UnAuthorizedClient": 3, "MissingSigningKey": 4,
+ENC_SUPPORTED = ("request_object_encryption_alg_values_supported", "request_object_encryption_enc_values_supported")
+EXC_TAG = {"TypeError": 19, "ClientAuthenticationError": 1, "UnknownClient": 2, "UnAuthorizedClient": 3, "MissingSigningKey": 4,
            "NoSuitableSigningKeys": 5, "BadSignature": 6, "ValueError": 7, "ServiceError": 8, "KeyError": 9,
            "BadSyntax": 10, "AttributeError": 11, "IssuerNotFound": 16, "MissingRequiredAttribute": 17, "MissingRequiredValue": 18}
 DESC_TAG = [("Request object does not belong to the client", 10), ("request_uri not allowed in a pushed", 11),
